@@ -21,14 +21,14 @@ RULE = ("one valid response of each kind (state with CRC-8, state with additive 
         "(8 values per position quick, all 255 thorough): client with capabilities and state from a good device in S0; device "
         "switched to S1 (every field, property, capability different) and answering every request of the next refresh() / "
         "get_capabilities() with the corrupted frame; if not valid(f): to_dict(), breeze/ieco and all capability attributes "
-        "unchanged, online False, supported False, no exception. Non-trivial: not valid(f) and the corruption is not in the last "
+        "unchanged, online False, supported False, no exception. Additionally the header bytes (length byte, appliance type, protocol, frame type) are swept over all substitutes for 24 (quick) / 400 (thorough) different valid frames per kind. Non-trivial: not valid(f) and the corruption is not in the last "
         "two bytes. Distinct by (kind, position, value, fix-up, level).")
 ASSUMPTIONS = ["corruptions that satisfy the other body check, or turn the id into 0xB0/0xB1, are valid frames by the property's own "
                "definition; counted as accepted_by_design and not asserted"]
 
 
-def corrupt(kind: str, pos: int, val: int, fix: bool) -> bytes:
-    f = bytearray(RK.valid_frame(kind, 1))
+def corrupt(kind: str, pos: int, val: int, fix: bool, base: str = None) -> bytes:
+    f = bytearray(bytes.fromhex(base) if base else RK.valid_frame(kind, 1))
     pos = pos % len(f)
     if f[pos] == val:
         val ^= 0x80
@@ -41,7 +41,7 @@ def corrupt(kind: str, pos: int, val: int, fix: bool) -> bytes:
 def check_decoder(case: dict):
     from msmart.device.AC.command import InvalidResponseException, Response
     from msmart.frame import InvalidFrameException
-    f = corrupt(case["kind"], case["pos"], case["val"], case["fix"])
+    f = corrupt(case["kind"], case["pos"], case["val"], case["fix"], case.get("base"))
     valid = RK.is_valid(f)
     try:
         Response.construct(f)
@@ -59,7 +59,7 @@ def check_decoder(case: dict):
 
 def check_stack(case: dict):
     from msmart.device import AirConditioner as AC
-    f = corrupt(case["kind"], case["pos"], case["val"], case["fix"])
+    f = corrupt(case["kind"], case["pos"], case["val"], case["fix"], case.get("base"))
     valid = RK.is_valid(f)
     net = vloop.Net()
     res = {}
@@ -114,11 +114,11 @@ def replay(ctx, case):
 
 
 def _run_one(ctx, case):
-    f = corrupt(case["kind"], case["pos"], case["val"], case["fix"])
+    f = corrupt(case["kind"], case["pos"], case["val"], case["fix"], case.get("base"))
     valid = RK.is_valid(f)
     n = len(f)
     nt = (not valid) and (case["pos"] % n) < n - 2
-    ctx.case(hash((case["kind"], case["pos"] % n, case["val"], case["fix"], case.get("level", "decoder"))), nt,
+    ctx.case(hash((case["kind"], case["pos"] % n, case["val"], case["fix"], case.get("level", "decoder"), case.get("base"))), nt,
              cls=f"{case.get('level', 'decoder')}/{case['kind']}/{'fixup' if case['fix'] else 'plain'}")
     if valid:
         ctx.label("accepted_by_design")
@@ -157,4 +157,35 @@ def run(ctx) -> None:
                         case = {"kind": kind, "pos": pos, "val": val, "fix": fix, "level": "stack"}
                         ctx.check(case, lambda c: _run_one(ctx, c))
     ctx.sweep("decoder level: all positions x all 255 substitutes x fix-up", n, True)
+    # header bytes (length byte in particular) over many different valid frames of each kind: whether a corrupted
+    # header can ever make a frame pass depends on the frame's content
+    import hashlib
+    from .. import model_ac as M
+    h = 0
+    nvar = 24 if ctx.quick else 400
+    for v in range(nvar):
+        d = hashlib.sha256(b"c13 variant %d" % v).digest()
+        props = {0x0009: bytes([d[0] % 101]), 0x000A: bytes([d[1] % 101]), 0x0048: bytes([d[2] % 101]), 0x0043: bytes([1 + d[3] % 4]),
+                 0x0039: bytes([d[4] & 1]), 0x0042: bytes([1 + d[5] % 2]), 0x0018: bytes([d[6] & 1])}
+        ids = sorted(props)[: 3 + d[7] % 5]
+        recs = [M.prop_resp_record(pid, props[pid]) for pid in ids]
+        frames = {
+            "props_b1": rc.frame_build(M.FT_QUERY, bytes([0xB1, len(recs)]) + b"".join(recs), proto=3),
+            "props_b0": rc.frame_build(M.FT_CONTROL, bytes([0xB0, len(recs[:3])]) + b"".join(recs[:3]), proto=3),
+            "state": rc.frame_build(M.FT_QUERY, bytes([0xC0]) + d[:23], proto=3),
+            "humidity": rc.frame_build(M.FT_QUERY, b"\xc1\x21\x01\x45" + d[8:24], proto=3),
+        }
+        for kind, fr in frames.items():
+            for pos in (1, 2, 8, 9):
+                for val in range(256):
+                    if val == fr[pos]:
+                        continue
+                    h += 1
+                    if ctx.mine(h):
+                        case = {"kind": kind, "pos": pos, "val": val, "fix": False, "base": fr.hex()}
+                        ctx.check(case, lambda c: _run_one(ctx, c))
+                        if pos == 1 and not RK.is_valid(corrupt(kind, pos, val, False, fr.hex())) and (val + h) % 97 == 0:
+                            c2 = dict(case, level="stack")
+                            ctx.check(c2, lambda c: _run_one(ctx, c))
+    ctx.sweep("header bytes (length, appliance, protocol, frame type) x all substitutes over many frames of each kind", h, True)
     ctx.sweep("full stack: positions x substitutes", s, not ctx.quick)
